@@ -34,18 +34,29 @@ def _attrs(cx, cy, extra=None):
     return a
 
 
-def _spec(data, cx=1.0, cy=1.0, x0=0.0, y0=0.0, desc=False, layout="C", name=None, attrs=None, res=True):
+def _spec(data, cx=1.0, cy=1.0, x0=0.0, y0=0.0, desc=False, layout="C", name=None, attrs=None, res=True,
+          linspace=False, lonlat2d=False):
     H, W = data.shape[-2:]
     x = x0 + cx * np.arange(W)
     y = y0 + cy * np.arange(H)
+    if linspace:
+        # the same grid up to float rounding, not bit for bit (another way of building coordinates)
+        x = np.linspace(x0, x0 + cx * (W - 1) * (1 + 1e-15), W)
+        y = np.linspace(y0, y0 + cy * (H - 1), H) + 0.0
+        x[1:-1] = np.nextafter(x[1:-1], np.inf)
     if desc:
         y = y[::-1].copy()
     at = _attrs(cx, cy) if attrs is None else attrs
     if not res:
         at = {k: v for k, v in at.items() if k != "res"}
-    return {"data": data, "dims": ["y", "x"], "coords": {"y": y, "x": x},
+    spec = {"data": data, "dims": ["y", "x"], "coords": {"y": y, "x": x},
             "scalar_coords": {"spatial_ref": 0}, "attrs": at, "name": name, "layout": layout,
             "chunks": None}
+    if lonlat2d:
+        # non-index coordinates (2-D lon/lat): caller-owned arrays as well
+        spec["coords2d"] = {"lon": np.add.outer(np.zeros(H), x) * 0.001 + 10.0,
+                            "lat": np.add.outer(y, np.zeros(W)) * 0.001 + 50.0}
+    return spec
 
 
 def elev(rs, dtype, H=H0, W=W0):
@@ -366,6 +377,29 @@ def catalogue_c11(seed, tier, rng):
     c.add("viewshed", "viewshed", [vr], {"x": 4.0, "y": 1.0, "observer_elev": 1.5, "target_elev": 2.0},
           identity="viewshed", heavy=True)
     c.add("viewshed", "viewshed", [vr], {"x": 40.0, "y": 1.0}, identity="viewshed", expect_error="ValueError")
+    # a float raster with NaN and +-inf cells, reused across functions that treat them differently
+    nf = elev(rs, "f8")
+    nf[1, 2] = np.nan
+    nf[H0 - 2, 1] = np.inf
+    nf[2, W0 - 2] = -np.inf
+    enf = c.raster("elev_f8_nonfinite", _spec(nf, 2.0, 3.0))
+    c.add("classify", "equal_interval", [enf], {"k": 3})
+    c.add("classify", "quantile", [enf], {"k": 3})
+    c.add("classify", "binary", [enf], {"values": [float("inf"), 45.0]})
+    c.add("classify", "reclassify", [enf], {"bins": [40.0, 50.0, 60.0], "new_values": [1.0, 2.0, 3.0]})
+    c.add("terrain", "slope", [enf])
+    c.add("focal", "focal_mean", [enf], {})
+    c.add("focal", "convolution_2d", [enf], {"kernel": KW})
+    # more than one pending lazy generator result (other seeds)
+    c.add("generators", "perlin", [t4], {"seed": 0}, backend="dask", identity="own", heavy=True, chunks={t4: [[3, 3], [4, 4]]})
+    c.add("generators", "generate_terrain", [t4], {"seed": 3, "zfactor": 4000}, backend="dask", identity="own",
+          heavy=True, chunks={t4: [[3, 3], [4, 4]]})
+    c.add("generators", "generate_terrain", [t8], {"seed": 77, "zfactor": 4000}, identity="own", heavy=True)
+    c.add("terrain", "hillshade", [e8], {"azimuth": 225, "angle_altitude": 25}, backend="dask",
+          chunks={e8: [[3, 3], [4, 3]]})
+    c.add("terrain", "hillshade", [e8], {"azimuth": 45, "angle_altitude": 60}, backend="dask",
+          chunks={e8: [[3, 3], [4, 3]]})
+
     # twins: same shape, dtype, layout and georeferencing, other content.  A history may edit a live
     # pool raster in place into its twin (what a user does between two calls on "the same" array)
     twins = []
@@ -550,6 +584,21 @@ def catalogue_c10(seed, tier, rng):
     for dt, lay in some(2 if tier == "quick" else 8, native=False):
         c.add("viewshed", "viewshed", [R("elev", dt, lay, shape=(5, 6), res=False, cx=1.0, cy=1.0, nonfinite=False)],
               {"x": 2.0, "y": 2.0, "observer_elev": 3}, identity="viewshed", heavy=True)
+
+    # rasters whose grids agree up to float rounding only; rasters carrying 2-D non-index coordinates
+    for op, nb in (("ndvi", 2), ("savi", 2), ("arvi", 3), ("evi", 3)):
+        rr = [R("band", "f4", "C")] + [R("band", rng.choice(["f4", "f8", "u1"]), "C", linspace=True) for _ in range(nb - 1)]
+        c.add("multispectral", op, rr)
+    c.add("zonal", "zonal_stats", [R("cats", "i4", "C"), R("elev", "f8", "C", linspace=True)], {}, identity="own")
+    for op in ("slope", "curvature", "aspect"):
+        c.add("terrain", op, [R("elev", "f8", "C", lonlat2d=True)])
+        c.add("terrain", op, [R("elev", "f4", "F", lonlat2d=True)])
+    c.add("focal", "focal_mean", [R("elev", "f8", "C", lonlat2d=True)], {"passes": 1})
+    c.add("classify", "binary", [R("elev", "i4", "C", lonlat2d=True)], {"values": [40.0, 45.0]})
+    # pathfinding with barriers
+    for dt, lay in (("f8", "C"), ("f4", "C"), ("i4", "C"), ("f8", "F")):
+        c.add("pathfinding", "a_star_search", [R("cats", dt, lay, res=False, cx=1.0, cy=1.0)],
+              {"start": (0.0, 0.0), "goal": (5.0, 6.0), "barriers": [0]}, heavy=True)
 
     # helpers that read georeferencing; custom statistics; 3-D crosstab
     for dt, lay in some(2, native=False):
